@@ -271,7 +271,8 @@ pub fn run(cfg: &Cfg, rep: &mut Rep) {
         i += 1;
         i % n == sh
     };
-    for &v in &lat {
+    let lat_part: &[i128] = if cfg.fuzz { &[] } else { &lat };
+    for &v in lat_part {
         for d in [0i128, MAX_NS, -MAX_NS] {
             if mine() {
                 check_total(rep, v + d);
@@ -282,11 +283,17 @@ pub fn run(cfg: &Cfg, rep: &mut Rep) {
         }
     }
     for v in [i128::MAX, i128::MIN, i128::MAX - 1, i128::MIN + 1, MAX_NS + 1, MIN_NS - 1] {
+        if cfg.fuzz {
+            break;
+        }
         if mine() {
             check_total(rep, v);
         }
     }
     for c in [i16::MIN, i16::MIN + 1, -3, -2, -1, 0, 1, 2, 3, i16::MAX - 1, i16::MAX] {
+        if cfg.fuzz {
+            break;
+        }
         for ns in [0u64, 1, npc - 1, npc, npc + 1, 2 * npc - 1, 2 * npc, 2 * npc + 1, 5 * npc, 5 * npc + 7, u64::MAX - 1, u64::MAX] {
             if mine() {
                 check_parts(rep, c, ns);
@@ -294,6 +301,9 @@ pub fn run(cfg: &Cfg, rep: &mut Rep) {
         }
     }
     for u in UNITS {
+        if cfg.fuzz {
+            break;
+        }
         let f = unit_ns(u);
         let mut ns: Vec<i64> = vec![0, 1, -1, 2, -2, i64::MAX, i64::MIN, i64::MAX - 1, i64::MIN + 1];
         for b in [i64::MAX as i128 / f, MAX_NS / f, NPC / f, 2 * NPC / f, 3 * NPC / f] {
@@ -320,6 +330,7 @@ pub fn run(cfg: &Cfg, rep: &mut Rep) {
     let mut r = Rng::new(cfg.seed, 0x0200 + sh as u64);
     let nrand = cfg.budget(6_000_000);
     for k in 0..nrand {
+        let k = cfg.k(k, &mut r);
         match k % 8 {
             0 | 1 => {
                 let (c, ns) = gen::rand_raw_parts(&mut r);
